@@ -116,6 +116,8 @@ def coq_prog(prog: List[list]) -> str:
             out.append("Upd None")
         elif k == "tick":
             out.append(f"Tick {op[1]}")
+        elif k == "readd":
+            continue      # re-adding identical data sets while stopped: not an operation of the model (a no-op)
         else:
             out.append(dict(start="Start", stop="Stop", pause="Pause", resume="Resume")[k])
     return "[" + "; ".join(out) + "]"
